@@ -6,6 +6,7 @@ import CasbinModel.Rbac
 import CasbinModel.KeyMatch
 import CasbinModel.Sexpr
 import CasbinModel.Fs
+import CasbinModel.Cached
 /-!
 # Line-protocol driver: runs the executable model on the harness' op stream.
 One op per input line, one canonical answer per output line.
@@ -48,6 +49,10 @@ structure DrvState where
   enf : Enforcer := dummyEnforcer
   /-- eval table in force for `enf` -/
   tbl : List (String × Option Expr) := []
+  /-- CachedEnforcer mode: `some cache` -/
+  cache : Option (List (CacheKey × Bool)) := none
+  /-- what `e.new` builds next -/
+  wantCached : Bool := false
 
 def domOf (s : String) : String := if s == "-" then "DEFAULT" else unesc s
 
@@ -148,6 +153,37 @@ def enfReq (st : DrvState) (vals : List String) : Out ErrKind Bool :=
 def enfReqCtx (st : DrvState) (suffix : String) (vals : List String) : Out ErrKind Bool :=
   st.enf.enforceCtx suffix (builtinCall st.enf.userFns) (tblFn st.tbl) (vals.map Sexpr.parseVal)
 
+/-- one request through the cache (if in cached mode) -/
+def enfCached (st : DrvState) (ctx : Option String) (vals : List String) : DrvState × Out ErrKind Bool :=
+  let compute := fun (_ : Unit) => match ctx with
+    | none => enfReq st vals
+    | some k => enfReqCtx st k vals
+  match st.cache with
+  | none => (st, compute ())
+  | some cache =>
+    let c : Cached := { inner := st.enf, cache := cache }
+    let key : CacheKey := (vals.map Sexpr.parseVal, match ctx with
+      | none => ""
+      | some k => "ctx:r" ++ k ++ "-p" ++ k ++ "-e" ++ k ++ "-m" ++ k)
+    let r := c.enforceWith key (fun _ => compute ())
+    ({ st with cache := some r.1.cache }, r.2)
+
+def enfKeysCached (st : DrvState) (k : CtxKeys) (vals : List String) : DrvState × Out ErrKind Bool :=
+  let compute := fun (_ : Unit) => st.enf.enforceKeys k (builtinCall st.enf.userFns) (tblFn st.tbl) (vals.map Sexpr.parseVal)
+  match st.cache with
+  | none => (st, compute ())
+  | some cache =>
+    let c : Cached := { inner := st.enf, cache := cache }
+    let key : CacheKey := (vals.map Sexpr.parseVal, "ctx:" ++ k.r ++ "-" ++ k.p ++ "-" ++ k.e ++ "-" ++ k.m)
+    let r := c.enforceWith key (fun _ => compute ())
+    ({ st with cache := some r.1.cache }, r.2)
+
+def enfCachedMany (st : DrvState) (ctx : Option String) (reqs : List (List String)) : DrvState × String :=
+  let r := reqs.foldl (fun (acc : DrvState × List Char) rq =>
+    let x := enfCached acc.1 ctx rq
+    (x.1, acc.2 ++ [match x.2 with | .ok true => 't' | .ok false => 'f' | .err _ => 'e' | .panic => 'p'])) (st, [])
+  (r.1, String.ofList r.2)
+
 def outC : Out ErrKind Bool → Char
   | .ok true => 't' | .ok false => 'f' | .err _ => 'e' | .panic => 'p'
 
@@ -182,7 +218,8 @@ def stepEnf (st : DrvState) (f : List String) : Option (DrvState × String) :=
   | ["e.new", kind, content, text, watcher] =>
     (match Enforcer.new st.spec.defs st.spec.store (mkAdapter kind content text) with
      | none => some (st, "err:model")
-     | some (e, r) => some ({ st with enf := { e with hasWatcher := watcher == "w" }, tbl := st.spec.tbl }, resS r))
+     | some (e, r) => some ({ st with enf := { e with hasWatcher := watcher == "w" }, tbl := st.spec.tbl,
+                                      cache := if st.wantCached then some [] else none }, resS r))
   | ["e.add", sec, pt, rule] => some (upd st (e.addPolicy sec pt (decList rule)))
   | ["e.addm", sec, pt, rules] => some (upd st (e.addPolicies sec pt (decLists rules)))
   | ["e.rm", sec, pt, rule] => some (upd st (e.removePolicy sec pt (decList rule)))
@@ -228,13 +265,20 @@ def stepEnf (st : DrvState) (f : List String) : Option (DrvState × String) :=
      | _ => none)
   | ["e.addfn", n] => some ({ st with enf := { e with userFns := unesc n :: e.userFns } }, "ok")
   | ["e.seteft"] => some (st, "ok")
-  | "e.enf" :: vals => some (st, outS (enfReq st vals))
-  | "e.enfc" :: suffix :: vals => some (st, outS (enfReqCtx st (unesc suffix) vals))
+  | "e.enf" :: vals => let r := enfCached st none vals; some (r.1, outS r.2)
+  | "e.enfc" :: suffix :: vals => let r := enfCached st (some (unesc suffix)) vals; some (r.1, outS r.2)
   | ["e.enfs", reqs] =>
     -- many requests in one line: `;`-separated, values `,`-separated (already escaped)
-    some (st, String.ofList ((reqs.splitOn ";").map (fun r => outC (enfReq st (if r == "|" then [] else r.splitOn ",")))))
+    some (enfCachedMany st none ((reqs.splitOn ";").map (fun r => if r == "|" then [] else r.splitOn ",")))
   | ["e.enfcs", suffix, reqs] =>
-    some (st, String.ofList ((reqs.splitOn ";").map (fun r => outC (enfReqCtx st (unesc suffix) (if r == "|" then [] else r.splitOn ",")))))
+    some (enfCachedMany st (some (unesc suffix)) ((reqs.splitOn ";").map (fun r => if r == "|" then [] else r.splitOn ",")))
+  | ["e.enfx", rk, pk, ek, mk, reqs] =>
+    let k : CtxKeys := ⟨rk, pk, ek, mk⟩
+    let r := (reqs.splitOn ";").foldl (fun (acc : DrvState × List Char) rq =>
+      let x := enfKeysCached acc.1 k (if rq == "|" then [] else rq.splitOn ",")
+      (x.1, acc.2 ++ [outC x.2])) (st, [])
+    some (r.1, String.ofList r.2)
+  | ["e.cached", b] => some ({ st with wantCached := b == "true" }, "ok")
   | ["e.pol"] => some (st, encLists (e.store.allOf "p") ++ " " ++ encLists (e.store.allOf "g"))
   | ["e.get", sec, pt] => some (st, encLists (e.store.getPolicy sec pt))
   | ["e.has", sec, pt, rule] => some (st, boolS (e.store.hasPolicy sec pt (decList rule)))
@@ -250,6 +294,8 @@ def stepEnf (st : DrvState) (f : List String) : Option (DrvState × String) :=
   | ["e.reload"] =>
     let s := loadRecords e.store.clear e.adapter.records
     some (st, encLists (s.allOf "p") ++ " " ++ encLists (s.allOf "g"))
+  | ["e.iusers", perm] =>
+    some (st, encList (sortStrings (e.getImplicitUsersForPermission (builtinCall e.userFns) (tblFn st.tbl) (decList perm))))
   | ["e.filtered"] => some (st, boolS e.adapter.filtered)
   | ["e.events"] => some ({ st with enf := { e with log := [] } }, if e.log.isEmpty then "-" else " ".intercalate (e.log.map eventS))
   | ["e.adapter"] =>
@@ -259,9 +305,20 @@ def stepEnf (st : DrvState) (f : List String) : Option (DrvState × String) :=
       | _ => esc (String.ofList e.adapter.text))
   | _ => none
 
+/-- cached_enforcer.rs: which forwarded calls clear the decision cache -/
+def cachePolicy (f : List String) (out : String) : Bool :=
+  match f.head? with
+  | some op =>
+    if op ∈ ["e.clear", "e.load", "e.loadf", "e.loadc", "e.setmodel", "e.setadapter", "e.setrm", "e.build", "e.seteft", "e.addfn"] then true
+    else if op == "e.auto" then f[1]? == some "enforce"
+    else if op ∈ ["e.add", "e.addm", "e.rm", "e.rmm", "e.rmf", "e.deluser", "e.delrole", "e.delperm"] then out == "true"
+    else false
+  | none => false
+
 def step (st : DrvState) (f : List String) : DrvState × String :=
   match stepEnf st f with
-  | some r => r
+  | some r =>
+    if r.1.cache.isSome && cachePolicy f r.2 then ({ r.1 with cache := some [] }, r.2) else r
   | none =>
   match f with
   | ["eff.run", x, cap, seq] =>
